@@ -68,11 +68,13 @@ def check(prop, tier):
             if any(k == "translator" for k, _ in broken):
                 model_ok = False
             else:
-                if broken:
-                    mods = [d for d in C.dep_closure("Extract/" + prop.extract[1]) if not d.startswith("Extract/")]
-                    err = C.coq_make(["theories/" + d[:-2] + ".vo" for d in mods])
-                    if err:
-                        model_ok = False
+                # always: a model file that the property file does not import (e.g. Adt/BlockOrder.v) must be rebuilt too when a base file changed
+                mods = [d for d in C.dep_closure("Extract/" + prop.extract[1]) if not d.startswith("Extract/")]
+                err = C.coq_make(["theories/" + d[:-2] + ".vo" for d in mods])
+                if err:
+                    model_ok = False
+                    if not broken:
+                        broken.append(("model", "the model files do not build: " + str(err)[-300:]))
                 if model_ok:
                     err = C.build_driver(prop.extract[0], prop.extract[1], prop.extract[2], prop.extract[3])
                     if err:
